@@ -12,6 +12,7 @@ Key(c, e) == [c |-> c, e |-> e]
 KeySet == {Key("i1", e) : e \in {"i64", "u64", "i128", "u128"}} \cup {Key("im1", e) : e \in {"i64", "i128"}} \cup {Key("i0", e) : e \in {"i64", "u64", "i128", "u128"}}
           \cup {Key("i2p64", e) : e \in {"u128", "i128"}} \cup {Key("sa", e) : e \in {"owned", "borrowed"}}
           \cup {Key("s1", "owned"), Key("bt", "bool")}
+          \cup {Key("umax", "u128")}                   \* 2^128 - 1: only a u128 holds it
 Found(ins, look) == \E q \in ins : q.c = look.c
 \* which access paths apply to which lookup key
 Paths(look) == {"sub", "in", "containing"} \cup (IF look.c \in {"sa", "s1"} THEN {"get"} ELSE {}) \cup (IF look.c = "sa" THEN {"attr"} ELSE {})
